@@ -706,8 +706,8 @@ pub fn run(args: &Args) -> Report {
         rep.inconclusive("token ledger capacity exhausted");
     }
     rep.exhaustive = Some(false);
-    rep.floor("op_kinds", rep.n_seen("op_kinds"), if miri { 6 } else { 11 });
-    rep.floor("fronts", rep.n_seen("fronts"), if miri { 3 } else { 5 });
+    rep.floor_set("op_kinds", if miri { 6 } else { 11 });
+    rep.floor_set("fronts", if miri { 3 } else { 5 });
     rep.floor("adjacent_op_pairs_seen", pairs.len() as u64, if miri { 10 } else { 80 });
     rep
 }
